@@ -56,10 +56,13 @@ fn merge_binary_expression(
   match outer_operator {
     BinaryOperator::PLUS => {
       if inner.operator == BinaryOperator::PLUS {
-        Some(BinaryExpression {
+        // (x + c1) + c2 is x + (c1 + c2) only when c1 + c2 is representable: with a wrapped sum the
+        // merged addition overflows at run time where the two original ones did not, and the
+        // comparison rule below relies on additions that do not overflow.
+        inner.e2.checked_add(outer_const).map(|e2| BinaryExpression {
           operator: BinaryOperator::PLUS,
           e1: inner.e1,
-          e2: inner.e2.wrapping_add(outer_const),
+          e2,
         })
       } else {
         None
